@@ -71,6 +71,13 @@ class CT(Term):
 
     def dropna(self): return self._mk("dropna", self)
 
+    def replace(self, a, b=None, **k):
+        if k or isinstance(a, (dict, list, CT)):
+            raise Unsupported("replace() other than replace(value, value) on a recording column")
+        if isinstance(b, float) and b != b:
+            return self._mk("blank", self, self._mk("eq", self, a))
+        return self._mk("replace", self, a, b)
+
     @property
     def empty(self): return self._mk("empty", self)
 
@@ -117,10 +124,33 @@ class CT(Term):
     @property
     def month(self): return self._mk("month", self)
 
+    def copy(self, deep=True): return self
+
+    def __getattr__(self, name):
+        # any other pandas method: recorded by name with its arguments (the result is a term the judges will not recognise)
+        if name.startswith("_") or name in ("key", "groups"):
+            raise AttributeError(name)
+        me = self
+
+        class _Rec(Stub):
+            def _abs_call(self_, *a, **k):
+                return me._mk(name, me, *[_arg(x) for x in a], *[f"{kk}={_arg(v)!r}" for kk, v in sorted(k.items())])
+        return _Rec()
+
     def __bool__(self):
         if self._oracle is None:
             raise Unsupported(f"truth value of the recording term {self.key()[:80]}")
         return self._oracle.choose(self.key())
+
+
+def _arg(x):
+    if isinstance(x, Term):
+        return x
+    if isinstance(x, float) and x != x:
+        return "nan"
+    if isinstance(x, (int, float, str, bool, type(None))):
+        return x
+    return type(x).__name__
 
 
 class CFrame(Stub):
@@ -154,21 +184,32 @@ class CFrame(Stub):
 
 
 class SFrame(Stub):
-    """A frame whose columns are terms over the columns it started with; stores and .loc[mask, col] = nan are applied in order."""
+    """A frame whose columns are terms over the columns it started with; stores and .loc[mask, col] = nan are applied in order;
+    `rows` lists the row-selecting operations applied so far."""
+    _settable = True
 
-    def __init__(self, cols: Dict[str, Any], oracle=None, events=None):
+    def __init__(self, cols: Dict[str, Any], oracle=None, events=None, index=None, rows=None):
         self._cols, self._oracle, self._events = dict(cols), oracle, events if events is not None else []
+        self._rows = list(rows or [])
+        self.index = index if index is not None else CT("index", oracle=oracle)
 
     @classmethod
-    def start(cls, columns, oracle=None):
-        return cls({c: CT(f"col:{c}", oracle=oracle) for c in columns}, oracle)
+    def start(cls, columns, oracle=None, index=None):
+        return cls({c: CT(f"col:{c}", oracle=oracle) for c in columns}, oracle, index=index)
+
+    def _new(self, cols=None, rows=None):
+        return SFrame(self._cols if cols is None else cols, self._oracle, self._events, self.index, self._rows if rows is None else rows)
 
     def __getitem__(self, c):
         if isinstance(c, str):
             if c not in self._cols:
                 raise InterpRaised("KeyError", c)
             return self._cols[c]
-        raise Unsupported("frame[...] with a non-column key on the state frame")
+        if isinstance(c, list) and all(isinstance(x, str) for x in c):
+            return self._new(cols={k: self[k] for k in c})
+        if isinstance(c, CT):
+            return self._new(rows=self._rows + [f"select({c.key()})"])
+        raise Unsupported("frame[...] with a key that is neither a column, a list of columns nor a recording mask")
 
     def __setitem__(self, c, v):
         if not isinstance(c, str):
@@ -187,20 +228,28 @@ class SFrame(Stub):
         return list(self._cols)
 
     @property
-    def index(self):
-        return CT("index", oracle=self._oracle)
-
-    @property
     def loc(self):
         return _SLoc(self)
 
     def copy(self, deep=True):
-        return SFrame(self._cols, self._oracle, self._events)
+        return self._new()
 
     def drop(self, columns=None, **k):
         if columns is None or k:
             raise Unsupported("drop() other than drop(columns=[...]) on the state frame")
-        return SFrame({c: v for c, v in self._cols.items() if c not in ([columns] if isinstance(columns, str) else list(columns))}, self._oracle, self._events)
+        return self._new(cols={c: v for c, v in self._cols.items() if c not in ([columns] if isinstance(columns, str) else list(columns))})
+
+    def replace(self, a, b=None, **k):
+        if k or isinstance(a, (dict, list)):
+            raise Unsupported("replace() other than replace(value, value) on the state frame")
+        return self._new(cols={c: (v.replace(a, b) if isinstance(v, CT) else v) for c, v in self._cols.items()})
+
+    def rowop(self, what: str):
+        return self._new(rows=self._rows + [what])
+
+
+def _lit(v):
+    return "nan" if isinstance(v, float) and v != v else v
 
 
 class _SLoc(Stub):
